@@ -18,40 +18,9 @@ import ICal.Model.TzUse
 namespace ICal.Driver
 open ICal.Proto
 
-/-! ### the instantiation of value equality
-
-  The theorems of C20 take `veq : Val → Val → Bool` as a parameter with reflexivity, symmetry
-  and transitivity as hypotheses.  The model sees of a value only (class name, `to_ical()` text,
-  parameters), so the driver instantiates `veq` on that view:
-
-  * the TimeBase classes (vDDDTypes, vDate, vDatetime, vDuration, vPeriod, vTime) implement
-    `params == other.params and dt == other.dt` for any two TimeBase objects: same text and the
-    same parameter map (Parameters is a CaselessDict, so the comparison ignores order);
-  * vDDDLists compares its element list, each element being a vDDDTypes with its own
-    parameters: same text and the same parameter map (exact for lists whose elements share one
-    zone, which is all vDDDLists can express in iCalendar text);
-  * every other class (str / int / float subclasses, vCategory, vGeo, vUTCOffset, vBinary,
-    vRecur ...) compares the Python value and ignores parameters: same class name, same text.
-
-  This is the one place where the model's equality is *chosen* rather than derived; the `eq`
-  correspondence op is what validates it against the real `__eq__` methods on every generated
-  pair of trees (equal copies, permutations, and every single-value perturbation).  It is an
-  equivalence relation, so the hypotheses of the C20 theorems hold for it.
--/
-
-def timeBaseKinds : List Str :=
-  ["vDDDTypes", "vDate", "vDatetime", "vDuration", "vPeriod", "vTime"].map String.toList
-
-/-- `Parameters.__eq__`: same keys, same values, order ignored -/
-def paramsEq (p q : Params) : Bool :=
-  p.length == q.length && p.all (fun kv => q.get? kv.1 == some kv.2)
-
-def veqDriver (a b : Val) : Bool :=
-  if timeBaseKinds.contains a.kind then
-    timeBaseKinds.contains b.kind && a.text == b.text && paramsEq a.params b.params
-  else if a.kind == "vDDDLists".toList then
-    b.kind == a.kind && a.text == b.text && paramsEq a.params b.params
-  else a.kind == b.kind && a.text == b.text
+/-! The instantiation of value equality is `ICal.veqStructural` (Model/Walk.lean): same class
+    (TimeBase classes merged), same text, and for TimeBase classes and vDDDLists the same
+    parameter map.  The `w_eq` op is what validates that choice against prop.py. -/
 
 def decPred (s : String) : Option (Comp → Bool) :=
   match s.toList with
@@ -102,7 +71,7 @@ def handleWalk (op : String) (args : List String) : Option String :=
     | none => some "bad-args"
   | "w_eq", [a, b] =>
     match decComp a, decComp b with
-    | some x, some y => some (encBool (compEq veqDriver x y))
+    | some x, some y => some (encBool (compEq veqStructural x y))
     | _, _ => some "bad-args"
   | "tz_used", [t] =>
     match decComp t with
